@@ -4,7 +4,7 @@ CONSTANTS
   Variants = {"A", "B"}
   MetaKeys = {"d", "l"}
   Values = {"x", "y"}
-  AtomicSave = TRUE
+  AtomicSave = FALSE
   DropStaleIndex = TRUE
 INVARIANTS HashLookupExact SavedRetrievable
 PROPERTIES HeightOnlyGrows
